@@ -14,9 +14,41 @@ pub const LIMITS: [usize; 6] = [0, 1, 2, 3, 5, 50];
 /// Parity-check matrices whose checks each involve at least two bits.
 /// Returns the matrix and the name of its family.
 pub fn gen_matrix(rng: &mut Rng, max_cols: usize) -> (SparseMatrix, &'static str) {
-    let fam = rng.below(6);
+    let fam = rng.below(8);
     let n = rng.range(3, max_cols.max(3));
     match fam {
+        6 => {
+            // more checks than bits (redundant / inconsistent checks): the syndrome test must still look at every row
+            let n = n.min(24);
+            let r = n + rng.range(1, n);
+            let mut h = SparseMatrix::new(r, n);
+            for j in 0..r {
+                for _ in 0..rng.range(2, 4.min(n)) {
+                    h.insert(j, rng.below(n));
+                }
+            }
+            fix_rows(rng, &mut h);
+            (h, "more-rows-than-columns")
+        }
+        7 => {
+            // built with the bulk operations from index lists that REPEAT entries and are not sorted (set semantics must absorb them)
+            let r = rng.range(1, n);
+            let mut h = SparseMatrix::new(r, n);
+            for j in 0..r {
+                let w = rng.range(2, 5.min(n));
+                let mut cols: Vec<usize> = (0..w).map(|_| rng.below(n)).collect();
+                let dup = cols[rng.below(cols.len())];
+                cols.insert(rng.below(cols.len() + 1), dup);
+                h.insert_row(j, cols.iter());
+            }
+            for _ in 0..rng.below(3) {
+                let c = rng.below(n);
+                let rows: Vec<usize> = vec![rng.below(r), rng.below(r), rng.below(r)];
+                h.insert_col(c, rows.iter());
+            }
+            fix_rows(rng, &mut h);
+            (h, "built-by-bulk-inserts-with-repeated-indices")
+        }
         0 => {
             // staircase (repeat-accumulate): H = [H0 | dual diagonal]; encodable, so codewords are available
             let r = rng.range(1, (n - 1).min(n * 2 / 3).max(1));
